@@ -1214,7 +1214,7 @@ NOT_YET = {
 
 PROPS['C15'].update(
     explanation='block_is_enabled (scrub.c) follows the documented decision table for EVERY plan / info word / position / time limit / tie counter (info_get replaced by its contract with goto-instrument --dfcc): unused stripes never, bad stripes always, full = all used, new = just-synced only, bad = only bad, auto = time < limit always, == limit for the first lastlimit stripes (the counter is incremented exactly then), > limit never. '
-                'The limit computation of state_scrub (mechanically extracted region) over a sorted time map: never more than the requested share nor the array, nothing younger than the age limit, cut short only by the age limit, timelimit/lastlimit consistent so that exactly countlimit stripes are selected, oldest first. md() == ceil(a*b/c) at both call sites. info word helpers are bit exact (refresh keeps the time at 8 s granularity and clears all marks; set_bad touches only the bad bit).',
+                'The limit computation of state_scrub (mechanically extracted region) over a sorted time map: never more than the requested share nor the array, nothing younger than the age limit, cut short only by the age limit, timelimit/lastlimit consistent so that exactly countlimit stripes are selected, oldest first. md() == ceil(a*b/c) at both call sites. info word helpers are bit exact (refresh keeps the time at 8 s granularity and clears all marks; set_bad touches only the bad bit). Also scrub_data_reader (a file changed since the last sync - size, seconds or nanoseconds - is not judged as synced data) and the run-length loops of the info record (every stripe gets back its own book-keeping word).',
     trusted_base=['region extraction (tools/inject.py extract_region): anchors "/* no more than the full count */" .. "count_limit" in cmdline/scrub.c', 'qsort (libc) assumed to sort: the region is driven with an arbitrary SORTED map'],
     assumptions=['time map bounded to 8 entries in the region obligation (labelled bounded)', 'the mark-update chain of state_scrub_process (bad iff silent or I/O error; refresh iff no error at all) is NOT yet under an obligation', 'eventual coverage over repeated runs is a liveness statement: not addressed'],
     not_covered=['state_scrub_process loop body (reader threads, error classification)', 'data/parity untouched by scrub (process-level frame)', 'liveness of repeated scrubs'])
@@ -1378,7 +1378,7 @@ PROPS['C05'].update(
                  'of state_check_process the per-disk data verification (failed-set construction), the outcome of repair(), the write-back step, the per-link loop and file_post ARE under obligation as extracted regions (bounded: <= 3 failed entries, one disk slot, 2 links); the opening / creating / truncating of files in fix mode (check.open.region), the re-creation of empty files, directories and links are under obligation too; what connects the regions (loop structure, filter evaluation, progress / autosave) is NOT'],
     not_covered=['state_check_process: what connects the extracted regions (loop structure, block_is_enabled filter, progress)', 'second strategy of repair() (parity not updated)', 'histories of syncs'])
 PROPS['C06'].update(
-    explanation='The decisions that make "recorded as synced" imply "parity valid", each on the real cmdline/sync.c: block_is_enabled processes a stripe iff it holds a file block and (a block with invalid parity or a forced full rebuild); the completion region marks blocks BLK and releases deleted blocks ONLY when the stripe had no error, no I/O error and any silent error was fixed; exactly then, if some block had invalid parity, raid_gen recomputes parity from the buffers and the write is scheduled; a silent or I/O error always leaves the stripe marked bad; the time is refreshed only when parity was really updated and no silent error occurred. After an in-memory repair every non-BLK failed block gets back exactly the bytes read (so the new parity is the parity of what is recorded) and the stripe counts as fixed iff every repaired block hashes to its record. Block map: fs_deallocate replaces the extent containing the released position by extents that map exactly the other positions of the old one, each to the same file block (removed / shrunk at either end / split in two, never empty); fs_allocate extends an extent only when the new block is contiguous in parity AND in the file, else adds one one-block extent and never alters an existing mapping.',
+    explanation='The decisions that make "recorded as synced" imply "parity valid", each on the real cmdline/sync.c: block_is_enabled processes a stripe iff it holds a file block and (a block with invalid parity or a forced full rebuild); the completion region marks blocks BLK and releases deleted blocks ONLY when the stripe had no error, no I/O error and any silent error was fixed; exactly then, if some block had invalid parity, raid_gen recomputes parity from the buffers and the write is scheduled; a silent or I/O error always leaves the stripe marked bad; the time is refreshed only when parity was really updated and no silent error occurred. After an in-memory repair every non-BLK failed block gets back exactly the bytes read (so the new parity is the parity of what is recorded) and the stripe counts as fixed iff every repaired block hashes to its record. Block map: fs_deallocate replaces the extent containing the released position by extents that map exactly the other positions of the old one, each to the same file block (removed / shrunk at either end / split in two, never empty); fs_allocate extends an extent only when the new block is contiguous in parity AND in the file, else adds one one-block extent and never alters an existing mapping. Also the hole record of the content file: the hashes of deleted blocks are turned into the INVALID marker when sync loads the state, so that a block re-added at that position can never be taken as already in the parity.',
     trusted_base=['fs_par2block_find / fs_deallocate / raid_gen / info_set by recording contracts (dfcc replace)', 'memhash by contract', 'region extraction of state_sync_process (3 regions)'],
     assumptions=['bounded: 2 disk slots in quick (3 thorough), block size 8', 'that the bytes hashed are the bytes on disk, the writer threads, parity_write I/O, autosave ordering and histories are not addressed', 'the extent operations are checked against the extent the finder returns (tree lookups, inserts and removals by recording contracts); the global invariants of the two trees (no overlap, every block mapped, monotone positions) are ASSUMED by the search units (they are what fs_check verifies at run time) and fs_check itself is NOT under an obligation', 'search side: the four comparators for all extents / arguments (proof); fs_is_empty, fs_par2extent_get_unlock / fs_par2file_find / fs_par2block_find and fs_size through the REAL tommy_tree_search_compare on search trees of at most 7 extents (bounded)'],
     not_covered=['fs_check, the AVL insert / remove / rebalance of tommy_tree, fs_file2par_find', 'parity_allocated_size / parity_used_size', 'io.c worker threads', 'state_write ordering vs parity_sync'])
@@ -1390,7 +1390,7 @@ PROPS['C14'].update(
 MANIFEST_TEXT['C14'] = dict(level_text='Narrow: the refuse / proceed decision of each interlock (empty disk, zero size, short parity, block size, hash size, missing disk, lock taken in main) is decided for all inputs on extracted regions / the extracted body of scan_file, plus the call order of the sync branch of main; that every file is byte-identical after a refusal is a file-system frame and is not decided - level other.',
                             design_ref='DESIGN.md section 4', level_note='regions by mechanical extraction; callees by stub; frame over the file system not decided', technique='CBMC drivers on mechanically extracted regions of real cmdline/scan.c, sync.c, state.c; bounded unit on real cmdline/parity.c')
 PROPS['C11'].update(
-    explanation='Only the per-entry and per-command DECISIONS of the statement, each on the real code: (1) scan_file (whole body extracted, callees by recording stub) classifies one directory entry against the recorded state: kept (same inode or path AND same size and time-stamp: equal / moved / restored) or a NEW file object - so every file whose size or time-stamp changed loses its block states and hashes and is read again by sync (file_copy makes inherited hashes provisional REP, also read again); exactly one change counter per entry; (2) the verdict of diff: a difference is reported iff some disk has an added / removed / updated / moved / copied / restored entry or parity_is_invalid (real: some stripe holds a file block and a block without valid parity, i.e. a previous sync was incomplete); main() turns it into exit status 2 and neither syncs nor writes; (3) the sync branch of main reads, scans, syncs and writes the content file iff something changed.',
+    explanation='Only the per-entry and per-command DECISIONS of the statement, each on the real code: (1) scan_file (whole body extracted, callees by recording stub) classifies one directory entry against the recorded state: kept (same inode or path AND same size and time-stamp: equal / moved / restored) or a NEW file object - so every file whose size or time-stamp changed loses its block states and hashes and is read again by sync (file_copy makes inherited hashes provisional REP, also read again); exactly one change counter per entry; (2) the verdict of diff: a difference is reported iff some disk has an added / removed / updated / moved / copied / restored entry or parity_is_invalid (real: some stripe holds a file block and a block without valid parity, i.e. a previous sync was incomplete); main() turns it into exit status 2 and neither syncs nor writes; (3) the sync branch of main reads, scans, syncs and writes the content file iff something changed. Also: inserting / removing a link or an empty directory (real scan.c) marks the state for saving and updates both containers of the disk - otherwise a sync with nothing else to do would leave the content file stale.',
     trusted_base=['region extraction of state_diffscan, main and of the body of scan_file', 'the index structures and every callee of scan_file by stub'],
     assumptions=['the directory walk (scan_dir: lstat / readdir / filters, which entry reaches scan_file / scan_link / scan_emptydir) is NOT under an obligation; scan_link, scan_emptydir and the removal detection (entries not marked present are removed and counted; bounded 3 per kind) are', 'that list / check agree with the real tree afterwards is a whole-command statement over the file system and is not decided', 'scan orders and parallel scanning are not addressed (threads)'],
     not_covered=['scan_dir, scan_disk', 'state_diffscan insertion order / delayed allocation', 'list.c', 'histories of operations'])
@@ -1405,12 +1405,12 @@ MANIFEST_TEXT['C12'] = dict(level_text='Narrow: which top-level operations each 
                             design_ref='DESIGN.md section 4', level_note='callees by stub; the frame over the file system and the call sites inside the processing loops are not decided', technique='CBMC drivers on mechanically extracted regions of real cmdline/snapraid.c and check.c and on real handle.c / parity.c open functions')
 PROPS['C19'] = dict(level='other', obligations=c19)
 PROPS['C19'].update(
-    explanation='Every place where data or a hash is taken over without having been computed from the file at hand, each on the real code. (1) scan_file (whole body, callees by recording stub): a file keeps its object - blocks, hashes, parity positions - only when found by inode or by path with the same size and time-stamp; anything else becomes a NEW file object; hashes are inherited (file_copy) only with copy detection on, only from a file the stamp index returned for name (with a usable sub-second stamp) or path + size + time-stamp, and only if file_is_full_hashed_and_stable says so (real: blocks exist, all BLK/REP, none awaiting rehash). (2) file_copy (real): every inherited block becomes REP - provisional, parity not valid - never BLK. (3) sync hash region: a REP block whose data does not match stops the stripe with an error, is neither recorded nor repaired; BLK mismatch is a silent error; together with the completion region of C06 the data is hashed before the stripe is recorded. (4) pre-hash region (sync -h): any mismatch of a provisional hash sets skip_sync before parity is touched. (5) check / fix: state_import_fetch and search_file_compare / state_search_fetch (real) return data only after reading and hashing it in that call and comparing with the recorded hash of the block being replaced, whatever its state.',
+    explanation='Every place where data or a hash is taken over without having been computed from the file at hand, each on the real code. (1) scan_file (whole body, callees by recording stub): a file keeps its object - blocks, hashes, parity positions - only when found by inode or by path with the same size and time-stamp; anything else becomes a NEW file object; hashes are inherited (file_copy) only with copy detection on, only from a file the stamp index returned for name (with a usable sub-second stamp) or path + size + time-stamp, and only if file_is_full_hashed_and_stable says so (real: blocks exist, all BLK/REP, none awaiting rehash). (2) file_copy (real): every inherited block becomes REP - provisional, parity not valid - never BLK. (3) sync hash region: a REP block whose data does not match stops the stripe with an error, is neither recorded nor repaired; BLK mismatch is a silent error; together with the completion region of C06 the data is hashed before the stripe is recorded. (4) pre-hash region (sync -h): any mismatch of a provisional hash sets skip_sync before parity is touched. (5) check / fix: state_import_fetch and search_file_compare / state_search_fetch (real) return data only after reading and hashing it in that call and comparing with the recorded hash of the block being replaced, whatever its state. Also the shortcut of repair(): data is fetched from the import / search indexes only for bad BLK / REP blocks (hash of the current content), never by the past hash of a pending CHG block.',
     trusted_base=['memhash by contract (arbitrary digest per kind)', 'tommy_hashdyn_search / open / pread / close by stub', 'region extraction of state_sync_process, state_hash_process and of the body of scan_file'],
     assumptions=['scan_dir / scan_disk (which entries reach scan_file, removal of past inodes when they are not persistent) are NOT under an obligation', 'the index structures (tommy_hashdyn) are replaced by stubs that return a consistent element or nothing', 'bounded: files of <= 4 blocks in file_is_full_hashed_and_stable, <= 3 in file_copy; block size 8 in the fetch drivers'],
     not_covered=['scan_dir / scan_disk', 'state_import / import_file (building the import index)', 'state_search / search_dir', 'how repair() uses the fetched buffer afterwards (C05 units)'])
 PROPS['C16'].update(
-    explanation='Format stability is decided as "every constant and encoding equals a definition that is NOT in the repository": parity coefficients and every lookup table (table-free GF(2^8) spec, documented Cauchy / power matrix, all indices); CRC-32C tables == reflected 0x82F63B78 and the checksum function; the variable-length integer / little-endian / string codecs (all values); the nanosecond field encoding; the block layout rule of a file (block sizes 2^10..2^24); the split-parity address map; and main() switches the engine to the mode the configuration selects (z-parity = Vandermonde third row) after reading it. Any self-consistent change of one of them (which the suite cannot see, since it creates its arrays with the binary under test) fails a named obligation.',
+    explanation='Format stability is decided as "every constant and encoding equals a definition that is NOT in the repository": parity coefficients and every lookup table (table-free GF(2^8) spec, documented Cauchy / power matrix, all indices); CRC-32C tables == reflected 0x82F63B78 and the checksum function; the variable-length integer / little-endian / string codecs (all values); the nanosecond field encoding; the block layout rule of a file (block sizes 2^10..2^24); the split-parity address map; and main() switches the engine to the mode the configuration selects (z-parity = Vandermonde third row) after reading it. Any self-consistent change of one of them (which the suite cannot see, since it creates its arrays with the binary under test) fails a named obligation. Also the record bodies of the content file as typed round trips (header incl. the format version choice, disk maps incl. the old m record, parity records P / Q, file / link / directory / hole records) and blockcmp over every hash size 2..16.',
     trusted_base=['spec/gf_spec.h, the bitwise CRC and varint specifications in the drivers'],
     assumptions=['MurmurHash3_x86_128 is pinned to an independently organised transcription of the published algorithm for all contents and seeds at 8 lengths (0, 1, 3, 5, 12, 15, 20, 32) in the THOROUGH tier only (2 to 40 minutes per length: an equivalence of two multiplier-heavy programs; lengths 16, 17, 31, 33 did not finish reliably and were dropped); in the quick tier, and for SpookyHash V2 / MetroHash in both tiers, the block hash functions are NOT pinned', 'record letters and header bytes of the content file are not pinned'],
     not_covered=['cmdline/murmur3.c, spooky2.c, metro.c', 'content header / record tags', 'reference arrays of earlier versions (those are tests, not this technique)'])
